@@ -1461,6 +1461,49 @@ mod imp {
                     Ok("ok".into())
                 }),
             ));
+            // P: the child answers the parent through the address the parent's event carried (_event.origin, i.e. the
+            // parent's session id, not '#_parent'): the answer is still an event of that invocation - invokeid set,
+            // <finalize> run - and a straggler sent the same way is ignored once the invocation was cancelled
+            let kid_p = child_doc(
+                r##"<state id="k"><onentry><send event="up" target="#_parent"/></onentry>
+<transition event="ping"><send event="pong" targetexpr="_event.origin" typeexpr="_event.origintype"/></transition>
+<transition event="last"><send event="straggler" targetexpr="_event.origin" typeexpr="_event.origintype"/></transition></state>"##,
+            );
+            let doc_p = format!(
+                r##"<scxml {ns} name="parp"><state id="a"><transition event="go" target="b"/><transition event="fin"><script>notify('fin')</script></transition>
+ <transition event="straggler pong"><script>mark('p-late', _event.name, _event.invokeid)</script></transition></state>
+<state id="b"><invoke id="kid"><content>{kid}</content><finalize><script>mark('finalize', _event.name)</script></finalize></invoke>
+ <transition event="up"><script>notify('up')</script></transition>
+ <transition event="ask"><send event="ping" target="#_kid"/></transition>
+ <transition event="pong"><script>mark('p-child-event', _event.name, _event.invokeid); notify('pong')</script></transition>
+ <transition event="askleave" target="a"><send event="last" target="#_kid"/></transition>
+ <transition event="error"><script>mark('p-error', _event.name)</script></transition></state></scxml>"##,
+                ns = NS,
+                kid = kid_p
+            );
+            v.push(scen(
+                "reply-through-origin",
+                1,
+                2,
+                doc_p,
+                vec![("go", "up"), ("ask", "pong"), ("askleave", ""), ("fin", "fin")],
+                Box::new(|o: &Obs| {
+                    basic_outcome(o)?;
+                    let ce = marks_of(o, "p-child-event");
+                    if ce != vec![vec!["p-child-event".to_string(), "pong".to_string(), "kid".to_string()]] {
+                        return Err(("child-event".into(), format!("the child answered through _event.origin; the parent processed {:?} (expected pong with invokeid kid)", ce)));
+                    }
+                    let fin: Vec<String> = marks_of(o, "finalize").iter().map(|m| m[1].clone()).collect();
+                    if !fin.contains(&"pong".to_string()) {
+                        return Err(("finalize-order".into(), format!("<finalize> of the invocation did not run for the child's event pong (ran for {:?})", fin)));
+                    }
+                    let late = marks_of(o, "p-late");
+                    if !late.is_empty() {
+                        return Err(("event-after-cancel".into(), format!("after the parent exited the invoking state it still processed events of that child: {:?}", late)));
+                    }
+                    Ok("ok".into())
+                }),
+            ));
             // L: nested invokes: the child invokes a grandchild and relays its event; when the parent leaves the
             // invoking state the child is cancelled and, by exiting its own invoking state, cancels the grandchild:
             // a probe queued behind that cancellation is never processed and no session thread is left behind
